@@ -5,6 +5,15 @@ def indent(level):
     return '  ' * level
 
 
+def node_to_message(node):
+    # text of a node for an error message. The printer is recursive: an expression of several hundred operands
+    # is parsed (the parser is not recursive) but can not be printed; the message must not fail because of it
+    try:
+        return str(node)
+    except RecursionError:
+        return f'<{type(node).__name__}: too long to show>'
+
+
 def ensure_select_keyword_order(select, operation):
     from mindsdb_sql.parser.ast.select.union import CombiningQuery
 
